@@ -145,7 +145,8 @@ CHECKS = {
     'C12': dict(
         technique='exhaustive enumeration of the request cross product against freshly built '
                   'session states, reference admission rule + no-side-effect oracle',
-        text='All 38400 feasible cells of method x EIO x transport x sid kind x request kind x '
+        text='All 78400 feasible cells of method x EIO x transport x sid kind x request kind (plain, '
+             'WebSocket upgrade, two kinds of inexact upgrade headers) x '
              'JSONP index x configured transports x server, each on a fresh world with a queued '
              'tagged message and a bystander session; refused requests must leave events, '
              'sessions, queue and transport() untouched. Exhaustive for this product in both '
